@@ -3,7 +3,7 @@ open Util
 open Base
 
 let items_s it = cat "," (L.map (fun (k, v) -> hx k ^ "=" ^ hx v) it)
-let doc_s d = cat ";" (L.map items_s d)
+let doc_s d = cat "" (L.map (fun p -> "[" ^ items_s p ^ "]") d)
 
 (* stream lossy-parse: fields = [hex text] *)
 let lossy_parse (fs : string list) : string =
